@@ -396,6 +396,14 @@ def pred_integrals(ctx, e, case, store):
             b = a * 10 ** rng.uniform(0, 2)
             c = b * 10 ** rng.uniform(0, 1.5)
             numeric = type(x) not in (fm.UnityEnergyFluxProfile, fm.PowerLawEnergyFluxProfile)
+            if numeric:
+                # the code integrates these with scipy quad at default settings: probe only intervals of
+                # modest dynamic range around the profile's own scale, where quad is reliable (its accuracy
+                # on wide intervals with a sharply concentrated integrand is not part of the property)
+                scale = getattr(x, '_Ecut', None) or getattr(x, '_E0', None) or 10 ** rng.uniform(0, 2)
+                a = scale * 10 ** rng.uniform(-1, 0.3)
+                b = a * 10 ** rng.uniform(0.05, 0.6)
+                c = b * 10 ** rng.uniform(0.05, 0.6)
             if numeric and not ctx.thorough() and rng.random() < 0.5:
                 continue
             try:
